@@ -3,6 +3,7 @@ package props
 import (
 	"encoding/json"
 	"fmt"
+	"sort"
 	"strings"
 	"time"
 
@@ -247,28 +248,33 @@ func runC18(r *core.Run) {
 		r.Distinct("mut:" + s)
 	}
 	reported := map[string]bool{}
-	rest, base := lines, 0
-	for rounds := 0; rounds < 40 && len(rest) > 0; rounds++ {
-		res := r.RunTLC(core.TLCOpts{Module: "PrintParse", Cfg: "PrintParse.cfg", Workers: 1, Timeout: 15 * time.Minute, KeepOut: true,
-			Texts: map[string]string{"trace.ndjson": strings.Join(rest, "\n") + "\n"}})
-		if res.OK {
-			break
-		}
-		if res.Violated != "TraceAccepted" && res.Violated != "" {
-			core.Fail("PrintParse: %s", res.ErrorText)
-		}
-		idx := res.Depth - 1
-		if idx < 0 || idx >= len(rest) {
-			core.Fail("PrintParse rejected at an impossible line")
-		}
-		g := base + idx
+	var rejected []int
+	res := r.RunTLC(core.TLCOpts{Module: "PrintParse", Cfg: "PrintParse.cfg", Workers: 1, Timeout: 15 * time.Minute, KeepOut: true,
+		// the last line is the binding self-test: a text whose printed form does not re-parse must be rejected
+		Texts: map[string]string{"trace.ndjson": strings.Join(lines, "\n") + "\n" + core.JSON(map[string]interface{}{"kind": "roundtrip", "reparsed": false, "p1": "a", "p2": "", "eval1": "", "eval2": ""}) + "\n"},
+		OnTrace: func(raw json.RawMessage) {
+			var x struct{ Reject int }
+			if err := json.Unmarshal(raw, &x); err != nil || x.Reject < 1 || x.Reject > len(lines)+1 {
+				core.Fail("PrintParse printed %s", raw)
+			}
+			rejected = append(rejected, x.Reject-1)
+		}})
+	if !res.OK {
+		core.Fail("PrintParse did not consume the whole trace: %s", res.ErrorText)
+	}
+	sort.Ints(rejected)
+	if len(rejected) == 0 || rejected[len(rejected)-1] != len(lines) {
+		core.Fail("binding self-test: PrintParse accepted a text that does not re-parse")
+	}
+	rejected = rejected[:len(rejected)-1]
+	for _, g := range rejected {
 		if !reported[sigs[g]] {
 			reported[sigs[g]] = true
 			r.Violation(sigs[g], descr[g], map[string]interface{}{"event": lines[g]})
 		}
-		base = g + 1
-		rest = lines[base:]
 	}
+	r.Coverage["events_rejected_by_TLC"] = len(rejected)
+	r.Coverage["binding_selftest"] = "an appended event whose printed form does not re-parse is rejected by PrintParse in every run"
 	r.Sample(map[string]interface{}{"text": evs[len(evs)/2].text, "printed": evs[len(evs)/2].P1})
 	r.Coverage["evaluations"] = len(lines)
 	r.Coverage["distinct_nontrivial"] = r.DistinctCount()
